@@ -266,7 +266,12 @@ impl Compiler {
                 self.compile_expression(expr)?;
                 self.emit_opcode(OpCode::Pop);
             }
-            Stmt::Block(stmts) => self.compile_block_statement(stmts)?,
+            Stmt::Block(stmts) => {
+                // an empty block used as a statement has no value, so it should leave nothing on the stack
+                if !stmts.is_empty() {
+                    self.compile_block_statement(stmts)?
+                }
+            }
             Stmt::Let(name, value) => {
                 let symbol = self.symbols.define(name);
                 self.compile_expression(value)?;
@@ -584,7 +589,7 @@ impl Compiler {
 
                 if self.last_instruction_is(OpCode::Pop) {
                     self.remove_last_instruction();
-                } else {
+                } else if !body.is_empty() {
                     self.emit_opcode(OpCode::Null);
                 }
 
